@@ -240,11 +240,14 @@ def rule_unrecognisable_fragments(run, prog, rid="R-7.8"):
              "of the file), at file level, no primary -- interpreted in priority order the way Registry.run tries them -- reports a "
              "match that covers the fragment without a diagnostic (the registry then raises its fatal `Unrecognized line`)",
              floor=1)
-    garbage = ["42", "]", ")", '"abc"', "->", "+", "= 3", "42 ]", ";42", "; ]", "\t)"]
+    garbage = ["42", "]", ")", '"abc"', "->", "+", "= 3", "42 ]", ";42", "; ]", "\t)", "))"]
     bad, n = None, 0
     try:
         for g in garbage:
-            for tail in ("", "\n"):                # the last line of the file, with and without its newline
+            # the last line of the file, with and without its newline; a surplus closing parenthesis can be part of no statement
+            # either, so it is also tried in front of a declaration (other fragments are absorbed there by the catch-all
+            # IsDeclaration and reported through the checks: DESIGN §6)
+            for tail in ("", "\n") + (("\nint\tg_x;\n",) if g.strip() in (")", "))") else ()):
                 n += 1
                 toks = lex(prog, g + tail, first_line=30)
                 name, o = first_match(prog, toks, scope="GlobalScope", history=("IsFuncDeclaration", "IsBlockStart", "IsBlockEnd"))
@@ -292,3 +295,101 @@ def rule_vla_sizes(run, prog, rid="R-2.11"):
            (f"`char buf[{bad[0]}];` in a function body: VLA_FORBIDDEN is {'reported' if bad[1] else 'not reported'} (diagnostics {bad[2]}); "
             f"a size spelled with a lower-case letter is a variable, an upper-case / numeric one a constant") if bad else "", None,
            evaluations=n)
+
+
+def rule_lines_counted_everywhere(run, prog, rid="R-3.11"):
+    run.rule(rid, "every line inside a function counts, whatever construct it is in: CheckLineCount.run, interpreted on a statement of one, "
+             "two and three lines standing in each scope a function body can contain (the body itself, a control structure, a local "
+             "struct / union / enum definition, a brace initialiser), adds that number of lines to the current scope -- from where "
+             "Context.update hands them to the function when the scope is left (R-3.5)", floor=1)
+    from ..stubrun import StubContext, line_tokens, make_scope, run_rule, RUNTIME_ERRORS
+    cl = prog.method("CheckLineCount", "run")
+    run.require(cl is not None, "anchor vanished: CheckLineCount.run")
+    scopes = [s for s in ("Function", "ControlStructure", "UserDefinedType", "UserDefinedEnum", "VariableAssignation") if s in prog.classes]
+    run.require(len(scopes) >= 4, f"only the scope classes {scopes} found")
+    bad, n = None, 0
+    try:
+        for scope in scopes:
+            for k in (1, 2, 3):
+                n += 1
+                stmt = []
+                for i in range(k):
+                    stmt += ["TAB", ("IDENTIFIER", f"a{i}"), "COMMA" if i < k - 1 else "SEMI_COLON", "NEWLINE"]
+                toks = line_tokens(stmt, 14, 1)
+                parent = make_scope("Function", parent=make_scope("GlobalScope")) if scope != "Function" else make_scope("GlobalScope")
+                sc = StubContext(prog, toks, history=("IsFuncDeclaration", "IsBlockStart", "IsVarDeclaration"), scope=scope,
+                                 scope_attrs={"parent": parent, "lines": 5})
+                try:
+                    run_rule(prog, "CheckLineCount", sc)
+                except RUNTIME_ERRORS as e:
+                    bad = bad or (scope, k, f"raises {type(e).__name__}")
+                    continue
+                got = sc.obj.scope.lines - 5
+                if got != k and bad is None:
+                    bad = (scope, k, f"adds {got} line(s)")
+    except Unsupported as e:
+        raise Undecided(f"CheckLineCount.run is outside the evaluable subset: {e}")
+    run.ob(rid, f"{cl.key}::counts-in-every-scope", bad is None,
+           (f"a {bad[1]}-line statement in the scope {bad[0]} {bad[2]} to the scope's line count: the lines of that construct never reach "
+            f"the function's 25-line count") if bad else "", cl.node, evaluations=n)
+
+
+def rule_brace_respelling(run, prog, rid="R-12.7"):
+    run.rule(rid, "a brace written as a digraph or trigraph gets the diagnostics of the plain brace: the lines `{`, `}` (alone, indented, "
+             "with a trailing blank, followed by a comment) and their `<% %>` / `??< ??>` spellings are lexed by interpreting the "
+             "tree's lexer, offered to the primaries in priority order and handed to CheckBrace: the same diagnostic codes come out "
+             "for every spelling", floor=1)
+    shapes = ["{}\n", "\t{}\n", "{} \n", "{}\t/* c */\n", "\t{}\n"]
+    spell = {"{": ("{", "<%", "??<"), "}": ("}", "%>", "??>")}
+    bad, n = None, 0
+    try:
+        for brace, hist, scope in (("{", ("IsFuncDeclaration",), "Function"), ("}", ("IsFuncDeclaration", "IsBlockStart", "IsExpressionStatement"), "Function")):
+            for shape in shapes:
+                ref = None
+                for sp in spell[brace]:
+                    n += 1
+                    toks = lex(prog, shape.replace("{}", sp), first_line=11)
+                    attrs = {"parent": None, "lines": 3, "indent": 1, "lvl": 1}
+                    name, o = first_match(prog, toks, scope=scope, history=hist, scope_attrs=dict(attrs))
+                    if name is None or o is None or not o.matched or o.hang or o.raised:
+                        got = ("unrecognised", name)
+                    else:
+                        o2 = run_statement(prog, toks, name, ["CheckBrace"], scope=scope, history=hist, scope_attrs=dict(attrs))
+                        got = ("codes", name, tuple(sorted(o2.codes)), o2.raised)
+                    if ref is None:
+                        ref = (sp, got)
+                    elif got != ref[1] and bad is None:
+                        bad = (shape.replace("{}", ref[0]), ref[1], shape.replace("{}", sp), got)
+    except Unsupported as e:
+        raise Undecided(f"CheckBrace / a primary is outside the evaluable subset: {e}")
+    run.ob(rid, "rules/check_brace.py::CheckBrace.run::respelling-invariant", bad is None,
+           (f"{bad[0]!r} gives {bad[1]} but its spelling {bad[2]!r} gives {bad[3]}: the width of the spelling leaks into the diagnostics")
+           if bad else "", None, evaluations=n)
+
+
+def rule_global_prefix(run, prog, rid="R-2.12"):
+    run.rule(rid, "a global without its g_ prefix is reported whatever it is called: the file-level declaration `int <name>;`, recognised "
+             "by the primaries in priority order and handed to CheckGlobalNaming (both interpreted), gets GLOBAL_VAR_NAMING for every "
+             "name that does not start with g_ (count, n, env, iron, on, x_g, gcount) and not for g_count / g_n / environ", floor=1)
+    wrong = ["count", "n", "env", "iron", "on", "x_g", "gcount", "e"]
+    right = ["g_count", "g_n", "environ"]
+    hist = ("IsFuncDeclaration", "IsBlockStart", "IsBlockEnd", "IsEmptyLine")
+    bad, n = None, 0
+    try:
+        for name_ in wrong + right:
+            n += 1
+            toks = lex(prog, f"int\t{name_};\n", first_line=21)
+            prim, o = first_match(prog, toks, scope="GlobalScope", history=hist)
+            if prim is None or o is None or not o.matched:
+                continue
+            o2 = run_statement(prog, toks, prim, ["CheckGlobalNaming"], scope="GlobalScope", history=hist)
+            if o2.hang or o2.raised:
+                continue
+            got = "GLOBAL_VAR_NAMING" in o2.codes
+            if got != (name_ in wrong) and bad is None:
+                bad = (name_, got, o2.codes)
+    except Unsupported as e:
+        raise Undecided(f"CheckGlobalNaming / a primary is outside the evaluable subset: {e}")
+    run.ob(rid, "rules/check_global_naming.py::CheckGlobalNaming::prefix-by-name", bad is None,
+           (f"`int {bad[0]};` at file level: GLOBAL_VAR_NAMING is {'reported' if bad[1] else 'not reported'} (diagnostics {bad[2]})")
+           if bad else "", None, evaluations=n)
